@@ -12,7 +12,7 @@ for l in open('/verif/properties.jsonl'):
     p = json.loads(l); props[p['id']] = p
 claimed = sys.argv[2:] or ["C01","C04","C06","C08","C10","C11","C12","C13","C14","C15","C16","C17","C19"]
 prev = {}
-for d in sorted(os.listdir('/verif/seeded')):
+for d in sorted(x for x in os.listdir('/verif/seeded') if os.path.isdir('/verif/seeded/' + x)):
     m = json.load(open(f'/verif/seeded/{d}/meta.json'))
     prev.setdefault(m['breaks_property'], []).append(d.split('-', 1)[1].replace('-', ' '))
 os.makedirs(f'/tmp/{ROUND}/prompts', exist_ok=True)
